@@ -512,7 +512,10 @@ class tridonic(hid):
                 else:
                     self._log.debug("Bus watch waiting for data, no timeout")
                     await self._bus_watch_data_available.wait()
-                self._bus_watch_data_available.clear()
+            # Clear the event whether or not we waited: a report queued
+            # before this task first waits leaves it set, and the next
+            # timed wait would return at once and be taken for a timeout
+            self._bus_watch_data_available.clear()
 
             # Figure out why we've woken up
             if len(self._bus_watch_data) == 0:
